@@ -204,7 +204,28 @@ class Engine:
             if tl.c is not None:
                 if not b.c.endswith(tl.c): return False
                 return self.streq(h, StrV(c=b.c[:len(b.c) - len(tl.c)]))
-        return self.sterm(a) == self.sterm(b)
+        ta, tb = self.sterm(a), self.sterm(b)
+        if self.sdiff(ta, tb): return False
+        return ta == tb
+    inj_pos = {'hexenc': {0}}
+    def sdiff(self, a, b, depth=0):
+        """syntactic test: are two terms definitely different under the injectivity / collision-freedom assumptions that
+        are also given to the solver as axioms (so this only saves queries, it decides nothing the solver would not)"""
+        if depth > 12 or a.eq(b) or not (z3.is_app(a) and z3.is_app(b)): return False
+        if (z3.is_bv_value(a) and z3.is_bv_value(b)) or (z3.is_int_value(a) and z3.is_int_value(b)): return a.as_long() != b.as_long()
+        na, nb = a.decl().name(), b.decl().name()
+        if a.num_args() == 0 and b.num_args() == 0:
+            ca, cb = self.tostr(a), self.tostr(b)
+            return ca.c is not None and cb.c is not None and ca.c != cb.c
+        if na != nb or a.num_args() != b.num_args(): return False
+        if na == 'pmul' and getattr(self, 'crypto_mode', 'alg') == 'euf':
+            return (a.arg(1).eq(b.arg(1)) and self.sdiff(a.arg(0), b.arg(0), depth + 1)) or (a.arg(0).eq(b.arg(0)) and self.sdiff(a.arg(1), b.arg(1), depth + 1))
+        if na == 'padd' and getattr(self, 'padd_inj', False):
+            # as the padd_l / padd_r axioms: operand-wise on the canonical operand order
+            return self.sdiff(a.arg(0), b.arg(0), depth + 1) or self.sdiff(a.arg(1), b.arg(1), depth + 1)
+        for j in self.inj_pos.get(na, ()):
+            if j < a.num_args() and self.sdiff(a.arg(j), b.arg(j), depth + 1): return True
+        return False
     def strlen(self, a):
         if a.c is not None: return len(a.c)
         return slen(a.t)
@@ -380,7 +401,7 @@ class Engine:
     def new_path(self, prefix):
         self.P = PathState(prefix)
         self.P.solver.timeout_ms = self.timeout_ms
-    def check(self, extra=True, full=False):
+    def check(self, extra=True, full=False, model=True):
         """is the path condition together with `extra` satisfiable?  full=True returns a model of every
         component of the path condition (needed to extract a replayable counterexample)"""
         t = time.time()
@@ -400,7 +421,7 @@ class Engine:
                 small = z3.And([z3.ULE(slen(t), bound) for t in strs])
                 r, m, why = s.full_model(small if x is None else z3.And(x, small))
                 if r == z3.sat: break
-        else: r, m, why = s.check(x)
+        else: r, m, why = s.check(x, need_model=model)
         self.stats['queries'] += 1; self.stats['solver_s'] += time.time() - t
         if r == z3.unknown:
             self.stats['unknown'] += 1
@@ -421,7 +442,7 @@ class Engine:
             if c is True: opts.append(i)
             elif c is False: continue
             else:
-                ok, _ = self.check(c)
+                ok, _ = self.check(c, model=False)
                 if ok: opts.append(i)
         if not opts: raise PathEnd()
         for o in reversed(opts[1:]):
@@ -437,10 +458,10 @@ class Engine:
         if P.dpos < len(P.prefix):
             d = P.prefix[P.dpos]; P.dpos += 1; P.decisions.append(d)
         else:
-            ok0, _ = self.check(c)
+            ok0, _ = self.check(c, model=False)
             if not ok0: d = 1
             else:
-                ok1, _ = self.check(z3.Not(c))
+                ok1, _ = self.check(z3.Not(c), model=False)
                 d = 0
                 if ok1: self.work.append(P.decisions + [1])
             P.dpos += 1; P.decisions.append(d)
